@@ -80,6 +80,12 @@ class MH(mailbox.MH):
         """
         self._locked: bool = False
         path = str(path)
+
+        # Something that exists but is not a directory is not a folder (it is
+        # one of the messages of the folder it is in.)
+        #
+        if os.path.exists(path) and not os.path.isdir(path):
+            raise NoSuchMailboxError(path)
         super().__init__(path, factory=factory, create=create)  # type: ignore[arg-type]
 
     ####################################################################
